@@ -988,10 +988,8 @@ class Client():
 
         self.connector.tx(request)
 
-        if method is not None:
-            self.respondent.reinit(method=self.requester.method)
-        else:
-            self.respondent.reinit()  # reset code status reason
+        # reset code status reason, always with method of request as sent (HEAD has no body)
+        self.respondent.reinit(method=self.requester.method)
 
     def redirect(self):
         """
